@@ -272,3 +272,50 @@ def gen_s2n():
             out.append('    s2n_harness!(%s, %d, %s);' % (h, n, alpha))
     _splice(p, 'S2N', out)
 gen_s2n()
+
+
+
+def gen_c15():
+    p = os.path.join(VERIF, 'kani', 'op__array.rs')
+    out = []
+    names = {0: 'scalar', 1: 'empty', 2: 'pair', 3: 'nested'}
+    def mg(digits, tier):
+        n = len(digits)
+        shape = sum(d * 4 ** i for i, d in enumerate(digits))
+        lab = '_'.join(names[d] for d in digits) or 'none'
+        h = 'k_c15_merge_%s' % lab
+        out.append('    //@ob name=C15.merge.%s harness=%s props=C15,C01 tier=%s strength=bounded bound="operand shapes (%s); element values symbolic" fns=op::array::merge stubs=2 timeout=300 cutdrop=3 group=medium' % (lab, h, tier, ', '.join(names[d] for d in digits)))
+        out.append('    //@ desc="merge: concatenation in operand order, array operands spliced exactly one level (a nested array stays one element), every other value one element; length law"')
+        out.append('    merge_harness!(%s, %d, %d);' % (h, n, shape))
+    mg([], 'quick'); mg([0], 'quick'); mg([2], 'quick'); mg([2, 0], 'quick'); mg([3], 'quick'); mg([1, 2], 'thorough'); mg([0, 2, 3], 'thorough'); mg([2, 2], 'thorough')
+    _splice(p, 'MERGE', out)
+    out = []
+    nkn = {0: 'null', 1: 'bool', 2: 'num', 3: 'str', 4: 'arr'}
+    hkn = {0: 'null', 1: 'bool', 2: 'num', 3: 'obj', 4: 'str', 5: 'arr'}
+    for nk, hk, tier in [(2, 0, 'quick'), (3, 0, 'thorough'), (2, 1, 'thorough'), (3, 2, 'quick'), (0, 3, 'quick'), (3, 4, 'quick'), (2, 4, 'quick'), (4, 4, 'thorough'), (0, 5, 'quick'), (2, 5, 'quick'), (1, 5, 'thorough')]:
+        h = 'k_c15_in_%s_in_%s' % (nkn[nk], hkn[hk])
+        strength = 'bounded' if (hk == 4 or nk == 3) else 'complete'
+        bound = ' bound="strings of one symbolic ASCII byte"' if strength == 'bounded' else ''
+        out.append('    //@ob name=C15.in.%s_in_%s harness=%s props=C15,C01 tier=%s strength=%s%s fns=op::array::in_ stubs=2 replay=generic timeout=200' % (nkn[nk], hkn[hk], h, tier, strength, bound))
+        out.append('    //@ desc="in(needle: %s, haystack: %s): null haystack => false; string haystack => both strings, substring; array => membership; any other haystack => error"' % (nkn[nk], hkn[hk]))
+        out.append('    in_harness!(%s, %d, %d);' % (h, nk, hk))
+    _splice(p, 'IN', out)
+gen_c15()
+
+
+
+def gen_c16():
+    p = os.path.join(VERIF, 'kani', 'op__string.rs')
+    out = []
+    kn = {0: 'str', 1: 'num', 2: 'arr'}
+    def c(digits, tier):
+        n = len(digits)
+        kinds = sum(d * 3 ** i for i, d in enumerate(digits))
+        lab = '_'.join(kn[d] for d in digits) or 'none'
+        h = 'k_c16_cat_%s' % lab
+        out.append('    //@ob name=C16.cat.%s harness=%s props=C16,C01 tier=%s strength=bounded bound="operand kinds (%s); string contents / string forms: one symbolic ASCII byte each" fns=op::string::cat stubs=2 timeout=200 cutdrop=1' % (lab, h, tier, ', '.join(kn[d] for d in digits)))
+        out.append('    //@ desc="cat: the concatenation, in operand order, of string operands unchanged and of to_string(v) for every other operand (to_string by contract); so concatenating in pieces equals concatenating at once"')
+        out.append('    cat_harness!(%s, %d, %d);' % (h, n, kinds))
+    c([], 'quick'); c([0], 'quick'); c([1], 'quick'); c([0, 1], 'quick'); c([2, 0], 'quick'); c([0, 0, 0], 'thorough'); c([1, 0, 2], 'thorough')
+    _splice(p, 'CAT', out)
+gen_c16()
